@@ -133,6 +133,7 @@ example : raceFree [exW, exR] = true := by decide
 example : wfB exTrace = true := by decide
 /-- the hypotheses of `lockset_sound` are met by a concrete non-trivial execution … -/
 example : WF exTrace := ⟨_, rfl⟩
+example : Respects [exW, exR] exTrace := respectsB_sound (by decide)
 /-- … whose two accesses conflict, so the conclusion says something -/
 example : conflict exW exR = true := by decide
 
